@@ -348,4 +348,13 @@ MUTANTS = [
          old="            with self._lids_lock:\n                if self._used_lids.full():", new="            if True:\n                if self._used_lids.full():"),
     dict(id='C17-m5', prop='C17', file='queue.py', desc='ResponsiveQueue polls with twice the wait interval',
          old="                    timeout=max(0, min(wait_interval_seconds, time_available)),", new="                    timeout=max(0, min(wait_interval_seconds * 2, time_available)),"),
+    # ---------------- C15
+    dict(id='C15-m1', prop='C15', file='multiprocessing/remote_exception.py', desc='rebuilt exception gets its remote traceback only when it has args',
+         old="    exc.__cause__ = RemoteTraceback(tb)\n\n    return exc", new="    if exc.args:\n        exc.__cause__ = RemoteTraceback(tb)\n\n    return exc"),
+    dict(id='C15-m2', prop='C15', file='multiprocessing/remote_exception.py', desc='forwarded remote traceback is truncated to 3000 characters',
+         old="                    tb = get_remote_traceback(exc)\n", new="                    tb = get_remote_traceback(exc)[-3000:]\n"),
+    dict(id='C15-m3', prop='C15', file='multiprocessing/remote_exception.py', desc='EnsembleError re-wrap skips the last member',
+         old="            for i in range(len(z)):\n                if isinstance(z[i], BaseException):", new="            for i in range(len(z) - (len(z) > 2)):\n                if isinstance(z[i], BaseException):"),
+    dict(id='C15-m4', prop='C15', file='multiprocessing/remote_exception.py', desc='EnsembleError.__reduce__ rebuilds from a copy that drops None members count (n recomputed)',
+         old="        return type(self), (self.args[1],)", new="        r = dict(self.args[1])\n        r['n'] = sum(1 for v in r['y'] if v is not None and not isinstance(v, tuple))\n        return type(self), (r,)"),
 ]
